@@ -34,7 +34,7 @@ struct HbProdRun : NodeEnv {
     // compare heartbeat/boot-up frames of this operation with the reference schedule
     void checkHb(size_t mark, uint64_t from, uint64_t to, int bootupsExpected, const char *what) {
         std::vector<std::pair<uint64_t, uint8_t>> exp;
-        if (hbOn) while (hbNext <= to) { if (hbNext > from || (hbNext == from && false)) { if (m == M_PREOP || m == M_OP || m == M_STOP) exp.push_back({hbNext, (uint8_t)(m == M_PREOP ? 127 : m == M_OP ? 5 : 4)}); } hbNext += hbPeriod; if (exp.size() > 5000) break; }
+        if (hbOn) while (hbNext <= to) { if (hbNext > from || (hbNext == from && false)) { if (m == M_PREOP || m == M_OP || m == M_STOP) exp.push_back({hbNext, (uint8_t)(m == M_PREOP ? 127 : m == M_OP ? 5 : 4)}); } hbNext += hbPeriod; if (exp.size() > 60000) break; }
         std::vector<std::pair<uint64_t, uint8_t>> got; int boots = 0; bool collide = false; std::set<uint64_t> other;
         for (size_t i = mark; i < w.evs.size(); i++) { const Ev &e = w.evs[i]; if (e.kind != EV_TX && e.kind != EV_TXFAIL) continue; cov.frames_out++;
             if (e.f.id == 0x700u + nodeId) { if (e.f.dlc != 1) { fail("hb/dlc", "frame on the heartbeat COB-ID with DLC " + std::to_string(e.f.dlc)); return; } if (e.f.d[0] == 0) boots++; else got.push_back({e.tick, e.f.d[0]}); } else other.insert(e.tick); }
@@ -53,7 +53,7 @@ struct HbProdRun : NodeEnv {
     }
     void op(const Op &o) {
         size_t mk = w.mark(); uint64_t t0 = now(); int boots = 0; const std::string &k = o.k;
-        if (k == "tick") { uint64_t n = (uint64_t)o.arg(0); if (hbOn && hbPeriod < 4 && n > 2000) n = 2000; w.tick(0, n); }
+        if (k == "tick") { uint64_t n = (uint64_t)o.arg(0); if (hbOn && hbPeriod < 4 && n > 20000) n = 20000; w.tick(0, n); }
         else if (k == "nmt") { uint8_t cs = (uint8_t)o.arg(0); if (m == M_INVALID) return; deliver(Frame(0, 2, {cs, (uint8_t)(o.arg(1) ? nodeId : 0)}));
             if (cs == 1) m = M_OP; else if (cs == 2) m = M_STOP; else if (cs == 128) m = M_PREOP; else if (cs == 129 || cs == 130) { m = M_PREOP; boots = 1; arm(w.raw(0, 0x1017, 0)); cov.hit(hbOn ? "reset-while-running" : "reset-while-off"); } }
         else if (k == "hbwrite") { uint32_t ms = (uint32_t)o.arg(0); bool viaSdo = o.arg(1) != 0; if (ms && tk(ms) == 0) return;   // below one tick: not constrained
@@ -107,6 +107,108 @@ Plan gen_hbprod(Rng &r, bool thorough) {
     return p;
 }
 Reg r10({"hbprod", "C10", gen_hbprod, [](const Plan &p, Cov &c, bool vb) { HbProdRun x(p, c, vb); return x.run(); }, nullptr, nullptr});
+
+// =====================================================================================================================
+// C11
+struct HbConsRun : NodeEnv {
+    struct Ent { uint8_t node = 0; uint16_t time = 0; bool active = false; uint64_t deadline = 0; uint32_t events = 0; int last = 0; };
+    std::vector<Ent> ent; int m = M_PREOP; int nEnt = 1;
+    HbConsRun(const Plan &p, Cov &c, bool vb) : NodeEnv(p, c, vb) {}
+    uint32_t tk(uint32_t ms) { return (uint32_t)((uint64_t)ms * freq / 1000); }
+    Ent *configured(uint8_t node) { for (auto &e : ent) if (e.time > 0 && e.node == node) return &e; return nullptr; }
+    static int decode(uint8_t s) { return s == 0 ? 1 : s == 127 ? 2 : s == 5 ? 3 : s == 4 ? 4 : 0; }
+    void build() {
+        nodeId = 1; freq = (uint32_t)plan.c("freq", 1000); nEnt = (int)plan.c("entries", 2); if (nEnt < 1) nEnt = 1; if (nEnt > 4) nEnt = 4;
+        add_mandatory(specs, 1);
+        add_typed(specs, T_HBCONS, 0x1016, 0, CO_OBJ_D___R_, (uint32_t)nEnt);
+        for (int i = 0; i < nEnt; i++) { Ent e; e.node = (uint8_t)plan.c("node" + std::to_string(i), 10 + i); e.time = (uint16_t)plan.c("time" + std::to_string(i), 20); for (auto &x : ent) if (x.node == e.node && x.time > 0 && e.time > 0) e.time = 0; ent.push_back(e); add_typed(specs, T_HBCONS, 0x1016, (uint8_t)(i + 1), CO_OBJ_____RW, e.time, e.node); }
+        add_typed(specs, T_HBPROD, 0x1017, 0, CO_OBJ_____RW, 0);
+        NodeCfg cfg; cfg.nodeId = nodeId; cfg.freq = freq; cfg.tmrNum = 16;
+        w.build(0, cfg, specs); w.init(0); w.start(0);
+        if (CONodeGetErr(N()) != CO_ERR_NONE) fail("setup/node-error", "node reports an error after initialisation");
+    }
+    // events and change callbacks of one operation against the model
+    void checkCallbacks(size_t mark, const std::vector<std::pair<uint64_t, uint8_t>> &expEvents, const std::vector<std::pair<uint8_t, int>> &expChanges, const char *what) {
+        std::vector<std::pair<uint64_t, uint8_t>> gotE; std::vector<std::pair<uint8_t, int>> gotC;
+        for (size_t i = mark; i < w.evs.size(); i++) { const Ev &e = w.evs[i]; if (e.kind == EV_HBEVENT) gotE.push_back({e.tick, (uint8_t)e.a}); else if (e.kind == EV_HBCHANGE) gotC.push_back({(uint8_t)e.a, (int)e.b}); else if (e.kind == EV_TX && e.f.id != 0x581) fail("hbcons/tx", "unexpected transmission: " + e.f.str()); }
+        auto se = expEvents; std::sort(se.begin(), se.end()); std::sort(gotE.begin(), gotE.end());
+        if (gotE != se) {
+            size_t i = 0; while (i < gotE.size() && i < se.size() && gotE[i] == se[i]) i++; char b[256];
+            if (i < gotE.size() && (i >= se.size() || gotE[i] < se[i])) { snprintf(b, sizeof b, "spurious heartbeat event for node %u at tick %llu during %s (%zu signalled, %zu expected)", gotE[i].second, (unsigned long long)gotE[i].first, what, gotE.size(), se.size()); fail("hbcons/spurious-event", b); }
+            else { snprintf(b, sizeof b, "heartbeat event for node %u due at tick %llu not signalled during %s (%zu signalled, %zu expected)", se[i].second, (unsigned long long)se[i].first, what, gotE.size(), se.size()); fail("hbcons/missing-event", b); }
+            return;
+        }
+        if (gotC != expChanges) fail("hbcons/change-callback", std::string("state-change notifications differ from the model during ") + what + ": got " + std::to_string(gotC.size()) + ", expected " + std::to_string(expChanges.size()));
+    }
+    void op(const Op &o) {
+        size_t mk = w.mark(); const std::string &k = o.k; std::vector<std::pair<uint64_t, uint8_t>> ee; std::vector<std::pair<uint8_t, int>> ec;
+        if (k == "tick") {
+            uint64_t n = (uint64_t)o.arg(0); uint64_t to = now() + n; bool capped = false;
+            // expected events up to 'to'
+            for (auto &e : ent) if (e.time > 0 && e.active) { uint32_t t = tk(e.time); if (t == 0) continue; int guard = 0; while (e.deadline <= to) { ee.push_back({e.deadline, e.node}); if (e.events < 255) e.events++; else cov.hit("event-counter-saturated"); e.deadline += t; if (++guard > 12000) { capped = true; break; } } }
+            if (capped) { fail("harness/too-many-events", "plan generates more than 3000 events in one tick operation"); return; }
+            w.tick(0, n);
+            if (now() != to) { fail("harness/tick-cap", "tick operation ended early"); return; }
+            cov.hit("events-expected", ee.size());
+        }
+        else if (k == "hb") {
+            uint8_t node = (uint8_t)o.arg(0), st = (uint8_t)o.arg(1); Ent *e = configured(node);
+            Fx fx = deliver(Frame(0x700u + node, 1, {st}));
+            if (e && tk(e->time) > 0) { if (fx.appRx) fail("hbcons/consumed-and-passed-on", "heartbeat of a monitored node also handed to the application callback"); int d = decode(st); if (d != e->last) ec.push_back({node, d}); e->last = d; if (!e->active) cov.hit("monitoring-started"); e->active = true; e->deadline = now() + tk(e->time); }
+            else if (!e) { if (m == M_STOP ? fx.appRx > 1 : fx.appRx != 1) fail("hbcons/unmonitored-not-passed-on", "heartbeat of an unmonitored node handed to the application callback " + std::to_string(fx.appRx) + " times"); cov.hit("hb-unmonitored-node"); }
+        }
+        else if (k == "write") {
+            if (m == M_STOP) return;
+            int n = (int)(o.arg(0) % nEnt); uint8_t node = (uint8_t)o.arg(1); uint16_t time = (uint16_t)o.arg(2); if (node < 1 || node > 127) node = 1; if (time && tk(time) == 0) return;
+            std::vector<Ent> before = ent; Ent *mon = configured(node);
+            const char *cls = time == 0 ? (ent[(size_t)n].time > 0 ? "write-zero-active-entry" : mon ? "write-zero-free-entry-while-monitored-elsewhere" : "write-zero-free-entry") : mon ? (mon == &ent[(size_t)n] ? "write-same-node-same-entry" : "write-dup-node-other-entry") : ent[(size_t)n].time > 0 ? "repoint-active-entry" : "configure-free-entry";
+            cov.hit(cls); nontrivial = true;
+            uint32_t ab = sdoWrite(0x1016, (uint8_t)(n + 1), (uint32_t)node << 16 | time, 4);
+            if (time > 0 && mon) { if (ab != 0x06040043) fail("hbcons/dup-not-refused", std::string(cls) + ": write of (node " + std::to_string(node) + ", time " + std::to_string(time) + ") to entry " + std::to_string(n + 1) + " answered " + hex(ab) + ", expected abort 06040043"); }
+            else { if (ab != 0) { fail("hbcons/write-refused", std::string(cls) + ": write of (node " + std::to_string(node) + ", time " + std::to_string(time) + ") to entry " + std::to_string(n + 1) + " refused with " + hex(ab)); return; } Ent &e = ent[(size_t)n]; e = Ent(); e.node = node; e.time = time; }
+            // stored values of all entries
+            for (int i = 0; i < nEnt && v.ok; i++) { uint32_t st = w.raw(0, 0x1016, (uint8_t)(i + 1)); uint32_t ex = (uint32_t)ent[(size_t)i].node << 16 | ent[(size_t)i].time; if (st != ex) fail("hbcons/stored-value", "1016h:" + std::to_string(i + 1) + " holds " + hex(st) + ", model " + hex(ex) + " after " + cls); }
+        }
+        else if (k == "events") { uint8_t node = (uint8_t)o.arg(0); Ent *e = configured(node); w.cur = 0; int16_t r = CONmtGetHbEvents(&N()->Nmt, node); int exp = e ? (int)e->events : -1; if (r != exp) fail("hbcons/event-counter", "CONmtGetHbEvents(" + std::to_string(node) + ") = " + std::to_string(r) + ", model " + std::to_string(exp)); if (e) { if (e->events) cov.hit("counter-read-nonzero"); e->events = 0; } }
+        else if (k == "last") { uint8_t node = (uint8_t)o.arg(0); Ent *e = configured(node); w.cur = 0; int r = (int)CONmtLastHbState(&N()->Nmt, node); int exp = e ? e->last : 0; if (r != exp) fail("hbcons/last-state", "CONmtLastHbState(" + std::to_string(node) + ") = " + std::to_string(r) + ", model " + std::to_string(exp)); }
+        else if (k == "readback") { if (m == M_STOP) return; int n = (int)(o.arg(0) % nEnt); uint32_t val = 0; uint32_t ab = sdoRead(0x1016, (uint8_t)(n + 1), val); uint32_t ex = (uint32_t)ent[(size_t)n].node << 16 | ent[(size_t)n].time; if (ab != 0 || val != ex) fail("hbcons/readback", "1016h:" + std::to_string(n + 1) + " reads " + hex(val) + " (abort " + hex(ab) + "), model " + hex(ex)); }
+        else if (k == "nmt") { uint8_t cs = (uint8_t)o.arg(0); deliver(Frame(0, 2, {cs, 0})); if (cs == 1) m = M_OP; else if (cs == 2) m = M_STOP; else if (cs == 128) m = M_PREOP; }
+        safety();
+        if (v.ok) checkCallbacks(mk, ee, ec, k.c_str());
+    }
+    Verdict run() {
+        build();
+        for (opi = 0; opi < (int)plan.ops.size() && v.ok; opi++) {
+            const Op &o = plan.ops[(size_t)opi]; w.opIndex = (uint32_t)opi; cov.ops++;
+            op(o);
+            Hash h; h.str(o.k); for (auto &e : ent) { h.u64(e.time > 0); h.u64(e.active); h.u64(e.events > 0); } if (o.k == "write") { h.u64((uint64_t)(o.arg(0) % nEnt)); h.u64(o.arg(2) == 0); } cov.pairs.insert(h.h); trace.u64(h.h);
+            Hash s2; for (auto &e : ent) { s2.u64(e.time > 0); s2.u64(e.active); } s2.u64((uint64_t)w.tmrUsedActions(0)); cov.states.insert(s2.h);
+        }
+        // no timer slot may be held by anything but active monitors
+        if (v.ok) { int act = 0; for (auto &e : ent) if (e.time > 0 && e.active) act++; if (w.tmrUsedActions(0) != act) fail("hbcons/timer-leak", std::to_string(w.tmrUsedActions(0)) + " timer slots in use, " + std::to_string(act) + " active monitors"); }
+        finish(); return v;
+    }
+};
+
+Plan gen_hbcons(Rng &r, bool thorough) {
+    Plan p; uint32_t f = r.pick<uint32_t>({1000, 1000, 2000, 10000}); p.cfg["freq"] = f; int ne = (int)r.range(1, 4); p.cfg["entries"] = ne;
+    std::vector<int64_t> nodes = {10, 11, 12, 13, 20};
+    for (int i = 0; i < ne; i++) { p.cfg["node" + std::to_string(i)] = nodes[(size_t)i]; p.cfg["time" + std::to_string(i)] = r.chance(1, 3) ? 0 : r.pick<int64_t>({5, 10, 20, 50}); }
+    int n = (int)r.range(3, thorough ? 60 : 30);
+    auto anyNode = [&]() { return nodes[r.below(r.chance(4, 5) ? (uint32_t)std::min(ne + 1, 5) : 5)]; };
+    for (int i = 0; i < n; i++) {
+        int c = (int)r.below(20);
+        if (c < 6) p.ops.push_back(Op("hb", {anyNode(), r.pick<int64_t>({5, 5, 5, 127, 4, 0, 3})}));
+        else if (c < 12) { int64_t T = r.pick<int64_t>({5, 10, 20, 50}) * (int64_t)f / 1000; p.ops.push_back(Op("tick", {r.chance(1, 15) ? 300 * T : r.pick<int64_t>({1, T - 1, T, T + 1, 2 * T, T / 2, 3 * T + 1})})); }
+        else if (c < 16) p.ops.push_back(Op("write", {(int64_t)r.below((uint32_t)ne), anyNode(), r.chance(1, 3) ? 0 : r.pick<int64_t>({5, 10, 20, 50})}));
+        else if (c == 16) p.ops.push_back(Op("events", {anyNode()}));
+        else if (c == 17) p.ops.push_back(Op("last", {anyNode()}));
+        else if (c == 18) p.ops.push_back(Op("readback", {(int64_t)r.below((uint32_t)ne)}));
+        else p.ops.push_back(Op("nmt", {r.pick<int64_t>({1, 2, 128, 128})}));
+    }
+    return p;
+}
+Reg r11({"hbcons", "C11", gen_hbcons, [](const Plan &p, Cov &c, bool vb) { HbConsRun x(p, c, vb); return x.run(); }, nullptr, nullptr});
 
 } // namespace
 } // namespace sim
